@@ -195,7 +195,10 @@ pub fn observe(routine: &str, dir: &Path) -> Result<BTreeMap<String, String>, St
                 let mut m = LruManager::new(3, dir.to_path_buf());
                 block_on(m.run_cycle(0, 100)).map_err(|e| format!("run_cycle: {e}"))?;
                 let mut order = Vec::new();
-                m.for_each_entry(|k| order.push(hex::encode(k)));
+                m.for_each_entry(|k| {
+                    order.push(hex::encode(k));
+                    assert!(order.len() <= 64, "for_each_entry does not terminate: the list has a cycle");
+                });
                 out.insert("lru".into(), format!("{order:?}"));
             }
             "disk" => {
